@@ -683,7 +683,7 @@ func (s *DB) getHistoricRootsAndNodes(
 		children := parentToChildren[parent]
 		tooNew := false
 		for _, childRoot := range children {
-			if childRoot.Created == nil || childRoot.Created.After(olderThan) {
+			if childRoot.Created == nil || !childRoot.Created.Before(olderThan) {
 				tooNew = true
 				break
 			}
